@@ -24,11 +24,11 @@ void h18a(void) {
     c.len = 0; c.tot_len = 0;
     sha256_transf(&c, blk, 1);
     uint32_t w[64], a = h0[0], b = h0[1], cc = h0[2], d = h0[3], e = h0[4], f = h0[5], g = h0[6], h = h0[7];
-    for(int t = 0; t < 16; t++) w[t] = ((uint32_t)blk[4 * t] << 24) | ((uint32_t)blk[4 * t + 1] << 16) | ((uint32_t)blk[4 * t + 2] << 8) | blk[4 * t + 3];
+    for(int t = 0; t < 16; t++) w[t] = ((uint32_t)blk[4 * t + 3]) | ((uint32_t)blk[4 * t + 2] << 8) | ((uint32_t)blk[4 * t + 1] << 16) | ((uint32_t)blk[4 * t] << 24);
     for(int t = 16; t < 64; t++) {
         uint32_t s0 = ROR32(w[t - 15], 7) ^ ROR32(w[t - 15], 18) ^ (w[t - 15] >> 3);
         uint32_t s1 = ROR32(w[t - 2], 17) ^ ROR32(w[t - 2], 19) ^ (w[t - 2] >> 10);
-        w[t] = w[t - 16] + s0 + w[t - 7] + s1;
+        w[t] = s1 + w[t - 7] + s0 + w[t - 16];     /* sigma1(w[t-2]) + w[t-7] + sigma0(w[t-15]) + w[t-16], FIPS 180-4 6.2.2 */
     }
     for(int t = 0; t < 64; t++) {
         uint32_t S1 = ROR32(e, 6) ^ ROR32(e, 11) ^ ROR32(e, 25), ch = (e & f) ^ (~e & g);
@@ -51,11 +51,12 @@ void h18b(void) {
     c.len = 0; c.tot_len = 0;
     sha512_transf(&c, blk, 1);
     uint64_t w[80], a = h0[0], b = h0[1], cc = h0[2], d = h0[3], e = h0[4], f = h0[5], g = h0[6], h = h0[7];
-    for(int t = 0; t < 16; t++) { uint64_t v = 0; for(int k = 0; k < 8; k++) v = (v << 8) | blk[8 * t + k]; w[t] = v; }
+    for(int t = 0; t < 16; t++) w[t] = ((uint64_t)blk[8 * t + 7]) | ((uint64_t)blk[8 * t + 6] << 8) | ((uint64_t)blk[8 * t + 5] << 16) | ((uint64_t)blk[8 * t + 4] << 24)
+                                       | ((uint64_t)blk[8 * t + 3] << 32) | ((uint64_t)blk[8 * t + 2] << 40) | ((uint64_t)blk[8 * t + 1] << 48) | ((uint64_t)blk[8 * t] << 56);
     for(int t = 16; t < 80; t++) {
         uint64_t s0 = ROR64(w[t - 15], 1) ^ ROR64(w[t - 15], 8) ^ (w[t - 15] >> 7);
         uint64_t s1 = ROR64(w[t - 2], 19) ^ ROR64(w[t - 2], 61) ^ (w[t - 2] >> 6);
-        w[t] = w[t - 16] + s0 + w[t - 7] + s1;
+        w[t] = s1 + w[t - 7] + s0 + w[t - 16];
     }
     for(int t = 0; t < 80; t++) {
         uint64_t S1 = ROR64(e, 14) ^ ROR64(e, 18) ^ ROR64(e, 41), ch = (e & f) ^ (~e & g);
@@ -82,11 +83,12 @@ void h18c(void) {
     for(int t = 16; t < 80; t++) w[t] = ROL32(w[t - 3] ^ w[t - 8] ^ w[t - 14] ^ w[t - 16], 1);
     for(int t = 0; t < 80; t++) {
         uint32_t f, k;
-        if(t < 20) { f = (b & c) | (~b & d); k = 0x5A827999u; }
+        /* Ch and Maj in their usual reduced forms: Ch(b,c,d) = (b&(c^d))^d, Maj(b,c,d) = ((b|c)&d)|(b&c) */
+        if(t < 20) { f = (b & (c ^ d)) ^ d; k = 0x5A827999u; }
         else if(t < 40) { f = b ^ c ^ d; k = 0x6ED9EBA1u; }
-        else if(t < 60) { f = (b & c) | (b & d) | (c & d); k = 0x8F1BBCDCu; }
+        else if(t < 60) { f = ((b | c) & d) | (b & c); k = 0x8F1BBCDCu; }
         else { f = b ^ c ^ d; k = 0xCA62C1D6u; }
-        uint32_t tmp = ROL32(a, 5) + f + e + k + w[t];
+        uint32_t tmp = e + (f + w[t] + k + ROL32(a, 5));
         e = d; d = c; c = ROL32(b, 30); b = a; a = tmp;
     }
     uint32_t r[5] = {h0[0] + a, h0[1] + b, h0[2] + c, h0[3] + d, h0[4] + e};
@@ -98,6 +100,13 @@ void h18c(void) {
 /* ---------------- T2: padding / block protocol with the compression function replaced by a recorder ---------------- */
 #ifndef LMAX
 #define LMAX 70
+#endif
+/* message length: concrete per harness instance when -DLCONC=n is given (symbolic offsets into the 64/128-byte block buffer
+ * made the all-lengths query exceed 12 M variables), symbolic otherwise */
+#ifdef LCONC
+#define LSEL LCONC
+#else
+#define LSEL nondet_size_t()
 #endif
 #define LOGB 4
 #if defined(H_h18p256) || defined(H_h18p1)
@@ -137,7 +146,7 @@ void SHA1_Transform(sha1_quadbyte state[5], const sha1_byte buffer[64]) {
 #endif
 
 #if defined(H_h18p256) || defined(H_h18p512) || defined(H_h18p1)
-size_t IN_L, IN_s1, IN_s2; unsigned char IN_msg[LMAX];
+size_t IN_L; unsigned char IN_msg[LMAX + 1];
 static void check_padding(const unsigned char *m, size_t L, uint64_t prior_blocks) {
     size_t total = ((L + 1 + LENF + BS - 1) / BS) * BS;
     OBLIGE(!lg_over && nlg == total / BS, "C18/number-of-blocks-is-that-of-the-standard-padding");
@@ -178,58 +187,61 @@ void h18p256(void)
 void h18p512(void)
 #endif
 {
-    size_t L = nondet_size_t(), s1 = nondet_size_t(), s2 = nondet_size_t();
-    ASSUME(L <= LMAX && s1 <= s2 && s2 <= L);
-    unsigned char m[LMAX];
+    /* message length L is concrete per harness instance and every 2-way split point s = 0..L is enumerated by the loop below
+     * (symbolic lengths/offsets made the query exceed 12 M variables / 7 GB); message content, and the number of whole blocks
+     * absorbed earlier, stay symbolic and are decided by the solver */
+    const size_t L = LCONC;
+    unsigned char m[LMAX + 1];
     for(size_t i = 0; i < LMAX; i++) { m[i] = nondet_uchar(); IN_msg[i] = m[i]; }
-    IN_L = L; IN_s1 = s1; IN_s2 = s2;
-    CTX c;
-    INIT(&c);
-#ifdef H_h18p256
-    for(int k = 0; k < 8; k++) OBLIGE(c.h[k] == REF_H256[k], "C18/sha256-initial-value");
-#else
-    for(int k = 0; k < 8; k++) OBLIGE(c.h[k] == REF_H512[k], "C18/sha512-initial-value");
-#endif
-    /* an arbitrary number of whole blocks may have been absorbed before (state after them: len 0, tot_len = blocks*BS) */
+    IN_L = L;
     unsigned prior = nondet_uint();
     ASSUME(prior <= PRIORMAX);
-    c.tot_len = prior * BS;
-    UPD(&c, m, (unsigned)s1);
-    UPD(&c, m + s1, (unsigned)(s2 - s1));
-    UPD(&c, m + s2, (unsigned)(L - s2));
-    unsigned char dg[DSZ];
-    FIN(&c, dg);
-    check_padding(m, L, prior);
-    /* digest = big-endian serialisation of the chaining value after the last block */
-    for(int i = 0; i < DSZ; i++)
-        OBLIGE(dg[i] == (unsigned char)(chain_last[i / WORD] >> (8 * (WORD - 1 - i % WORD))), "C18/digest-is-big-endian-chaining-value");
+    for(size_t s = 0; s <= L; s++) {
+        CTX c;
+        nlg = 0; lg_over = 0;
+        INIT(&c);
+#ifdef H_h18p256
+        for(int k = 0; k < 8; k++) OBLIGE(c.h[k] == REF_H256[k], "C18/sha256-initial-value");
+#else
+        for(int k = 0; k < 8; k++) OBLIGE(c.h[k] == REF_H512[k], "C18/sha512-initial-value");
+#endif
+        c.tot_len = (uint64_t)prior * BS;     /* state after `prior` whole blocks: buffer empty, tot_len = blocks*BS */
+        UPD(&c, m, (unsigned)s);
+        UPD(&c, m + s, (unsigned)(L - s));
+        unsigned char dg[DSZ];
+        FIN(&c, dg);
+        check_padding(m, L, prior);
+        for(int i = 0; i < DSZ; i++)
+            OBLIGE(dg[i] == (unsigned char)(chain_last[i / WORD] >> (8 * (WORD - 1 - i % WORD))), "C18/digest-is-big-endian-chaining-value");
+    }
     WITNESS("h18p-end");
 }
 #endif
 
 #ifdef H_h18p1
 void h18p1(void) {
-    size_t L = nondet_size_t(), s1 = nondet_size_t(), s2 = nondet_size_t();
-    ASSUME(L <= LMAX && s1 <= s2 && s2 <= L);
-    unsigned char m[LMAX];
+    const size_t L = LCONC;
+    unsigned char m[LMAX + 1];
     for(size_t i = 0; i < LMAX; i++) { m[i] = nondet_uchar(); IN_msg[i] = m[i]; }
-    IN_L = L; IN_s1 = s1; IN_s2 = s2;
-    SHA_CTX c;
-    SHA1_Init(&c);
-    OBLIGE(c.state[0] == 0x67452301u && c.state[1] == 0xEFCDAB89u && c.state[2] == 0x98BADCFEu && c.state[3] == 0x10325476u &&
-           c.state[4] == 0xC3D2E1F0u, "C18/sha1-initial-value");
-    unsigned prior = nondet_uint();
-    ASSUME(prior <= PRIORMAX);
+    IN_L = L;
+    /* concrete here: SHA1_Final pads byte by byte in a loop whose condition reads the bit count */
+    const unsigned prior = PRIORMAX;
     u_int64_t pb = (u_int64_t)prior * 512;
-    c.count[0] = (uint32_t)pb; c.count[1] = (uint32_t)(pb >> 32);
-    SHA1_Update(&c, (const sha1_byte *)m, (unsigned)s1);
-    SHA1_Update(&c, (const sha1_byte *)m + s1, (unsigned)(s2 - s1));
-    SHA1_Update(&c, (const sha1_byte *)m + s2, (unsigned)(L - s2));
-    unsigned char dg[20];
-    SHA1_Final((sha1_byte *)dg, &c);
-    check_padding(m, L, prior);
-    for(int i = 0; i < 20; i++)
-        OBLIGE(dg[i] == (unsigned char)(chain_last[i / 4] >> (8 * (3 - i % 4))), "C18/digest-is-big-endian-chaining-value");
+    for(size_t s = 0; s <= L; s++) {
+        SHA_CTX c;
+        nlg = 0; lg_over = 0;
+        SHA1_Init(&c);
+        OBLIGE(c.state[0] == 0x67452301u && c.state[1] == 0xEFCDAB89u && c.state[2] == 0x98BADCFEu && c.state[3] == 0x10325476u &&
+               c.state[4] == 0xC3D2E1F0u, "C18/sha1-initial-value");
+        c.count[0] = (uint32_t)pb; c.count[1] = (uint32_t)(pb >> 32);
+        SHA1_Update(&c, (const sha1_byte *)m, (unsigned)s);
+        SHA1_Update(&c, (const sha1_byte *)m + s, (unsigned)(L - s));
+        unsigned char dg[20];
+        SHA1_Final((sha1_byte *)dg, &c);
+        check_padding(m, L, prior);
+        for(int i = 0; i < 20; i++)
+            OBLIGE(dg[i] == (unsigned char)(chain_last[i / 4] >> (8 * (3 - i % 4))), "C18/digest-is-big-endian-chaining-value");
+    }
     WITNESS("h18p-end");
 }
 #endif
